@@ -17,7 +17,7 @@ Seeds == { [k |-> "Name", nm |-> nm] : nm \in BODIES } \cup { [k |-> "Verts", vs
 FaceSeq(b) == SetToSeq(b.fs)
 FormsOf(b) ==
   IF b.k = "Polygon"
-  THEN { [perm |-> p, dup |-> d, rev |-> {}] : p \in PermsFor(Len(b.cyc)), d \in 0..2 }
+  THEN { [perm |-> p, dup |-> d, rev |-> {}] : p \in PermsFor(Len(b.cyc)), d \in 0..4 }
   ELSE LET n == Cardinality(b.fs)
            masks == { {}, 1..n, { i \in 1..n : i % 2 = 0 }, { i \in 1..n : i % 3 = 1 }, {1}, {n} }
        IN { [perm |-> p, dup |-> 0, rev |-> m] : p \in AffinePerms(n) \cup { [i \in 1..n |-> n + 1 - i] }, m \in masks }
